@@ -17,6 +17,26 @@ EXPLANATION = (
 CP = "hta.analyzers.critical_path_analysis"
 
 
+def check_reset_before_accumulate(db, chk, rule: str) -> None:
+    """(also C19: a restored graph is recomputed by the same method; a set that is only ever added to mixes the edges of two computations)"""
+    m = db.mod(CP)
+    f = m.func("CPGraph.critical_path")
+    where = m.loc(f)
+    lp = [n for n in ast.walk(f) if isinstance(n, ast.Call) and call_name(n).endswith("dag_longest_path")]
+    if len(lp) != 1:
+        raise AnalysisError("critical_path: the longest-path call was not found")
+    # ---------------------------------------------------------------- R3 reset before accumulate
+    resets = [s for t, val, s in H.assignments(f) if H.is_self_attr(t, "critical_path_edges_set") and isinstance(val, ast.Call) and H.name_id(val.func) == "set" and not val.args]
+    accum = [n for n in ast.walk(f) if isinstance(n, ast.Call) and isinstance(n.func, ast.Attribute) and n.func.attr in ("add", "update") and H.is_self_attr(n.func.value, "critical_path_edges_set")]
+    whole = [s for t, val, s in H.assignments(f) if H.is_self_attr(t, "critical_path_edges_set") and isinstance(val, (ast.SetComp, ast.Set)) or
+             (H.is_self_attr(t, "critical_path_edges_set") and isinstance(val, ast.Call) and H.name_id(val.func) == "set" and val.args)]
+    top_level = lambda s: any(s is x for x in f.body)
+    ok = (len(resets) == 1 and top_level(resets[0]) and resets[0].lineno > lp[0].lineno and all(a.lineno > resets[0].lineno for a in accum) and bool(accum)) or (len(whole) == 1 and not accum)
+    chk.ob(rule, "the edge set is emptied (or rebuilt as a whole) on every computation, after the new path is known and before edges are added", ok, where,
+           found={"resets": [s.lineno for s in resets], "accumulations": [ast.unparse(a)[:60] for a in accum]}, accepted="self.critical_path_edges_set = set()  before the accumulation loop",
+           why="without the reset a recomputation after re-weighting reports the union of the old and the new path's edges")
+
+
 def run(db, chk) -> None:
     from ..specs.discipline import check_stateless
     check_stateless(db, chk, "C09.R-stateless", ['hta.analyzers.critical_path_analysis'])      # the result is a function of the arguments: no state kept between calls, caller's Trace untouched
@@ -95,16 +115,7 @@ def run(db, chk) -> None:
     form = _pair_form(f)
     chk.ob("C09.R2-derivation", "critical edges = the graph edges between CONSECUTIVE nodes of the path, each read from 'object'", form["ok"], where, found=form["found"],
            accepted="u = first; for each next v: add(self.edges[u, v]['object']); u = v   |   for u, v in zip(path, path[1:])")
-    # ---------------------------------------------------------------- R3 reset before accumulate
-    resets = [s for t, val, s in H.assignments(f) if H.is_self_attr(t, "critical_path_edges_set") and isinstance(val, ast.Call) and H.name_id(val.func) == "set" and not val.args]
-    accum = [n for n in ast.walk(f) if isinstance(n, ast.Call) and isinstance(n.func, ast.Attribute) and n.func.attr in ("add", "update") and H.is_self_attr(n.func.value, "critical_path_edges_set")]
-    whole = [s for t, val, s in H.assignments(f) if H.is_self_attr(t, "critical_path_edges_set") and isinstance(val, (ast.SetComp, ast.Set)) or
-             (H.is_self_attr(t, "critical_path_edges_set") and isinstance(val, ast.Call) and H.name_id(val.func) == "set" and val.args)]
-    top_level = lambda s: any(s is x for x in f.body)
-    ok = (len(resets) == 1 and top_level(resets[0]) and resets[0].lineno > lp[0].lineno and all(a.lineno > resets[0].lineno for a in accum) and bool(accum)) or (len(whole) == 1 and not accum)
-    chk.ob("C09.R3-reset-before-accumulate", "the edge set is emptied (or rebuilt as a whole) on every computation, after the new path is known and before edges are added", ok, where,
-           found={"resets": [s.lineno for s in resets], "accumulations": [ast.unparse(a)[:60] for a in accum]}, accepted="self.critical_path_edges_set = set()  before the accumulation loop",
-           why="without the reset a recomputation after re-weighting reports the union of the old and the new path's edges")
+    check_reset_before_accumulate(db, chk, "C09.R3-reset-before-accumulate")
     # ---------------------------------------------------------------- R5 the path is recomputed on every call
     guards = []
     cur = m.parent.get(id(lp[0]))
@@ -150,10 +161,24 @@ def _pair_form(f):
             stmts.sort(key=lambda s: s.lineno)
             r = H.match_seq([f"$v = next({itv})", "$e = self.edges[$u, $v]['object']", "self.critical_path_edges_set.add($e)", "$u = $v"], stmts, b)
             nexts = [n for n in ast.walk(f) if isinstance(n, ast.Call) and H.name_id(n.func) == "next"]
+            # every pair contributes its edge: the add is not under a condition inside the loop
+            cond = []
+            for a in [x for x in ast.walk(loops[0]) if isinstance(x, ast.Call) and isinstance(x.func, ast.Attribute) and x.func.attr == "add" and H.is_self_attr(x.func.value, "critical_path_edges_set")]:
+                par = {id(ch): pn for pn in ast.walk(loops[0]) for ch in ast.iter_child_nodes(pn)}
+                cur = par.get(id(a))
+                while cur is not None and cur is not loops[0]:
+                    if isinstance(cur, (ast.If, ast.IfExp)):
+                        cond.append(ast.unparse(cur.test)[:80])
+                    cur = par.get(id(cur))
+            if cond:
+                return {"ok": False, "found": [f"edge added only if {c}" for c in cond]}
             return {"ok": r is not None and len(nexts) == 2, "found": [ast.unparse(s)[:80] for s in stmts]}
     # idiom (b): for u, v in zip(path, path[1:]): ... self.edges[u, v]["object"]
     for n, b in H.find_match("zip($$p, $$p[1:])", f):
         if "critical_path_nodes" in ast.unparse(b["__mvx_p"]) or isinstance(b["__mvx_p"], ast.Name):
             objs = H.find_match("self.edges[$u, $v]['object']", f)
+            filt = [g for c in ast.walk(f) if isinstance(c, (ast.GeneratorExp, ast.SetComp, ast.ListComp)) and any(x is n for x in ast.walk(c)) for g in c.generators if g.ifs]
+            if filt:
+                return {"ok": False, "found": ["pairs filtered by " + ast.unparse(filt[0].ifs[0])[:80]]}
             return {"ok": len(objs) == 1, "found": [ast.unparse(n)]}
     return {"ok": None, "found": ["pairing idiom not recognised"]}
